@@ -21,11 +21,13 @@ Accepts == {"", "gzip", "br", "gzip, deflate, br", "deflate", "gzip, deflate"}
 Sizes == {"zero", "tiny", "below", "at", "above", "large"}     \* against the min compress length
 Ratios == {"normal", "incompressible", "high", "extreme"}       \* high: compresses more than 10x; extreme: more than
                                                                 \* 200x (200 kB of one byte: beyond every buffer guess but the maximal ratio)
-CTypes == {"text/plain; charset=utf-8", "image/png"}
+CTypes == {"text/plain; charset=utf-8", "image/png", "application/json"}
 (* server settings: min length / content type filter; "min100u": a server created with the defaults and then
    reconfigured (Update) to min length 100; "fast": a server using a compress profile of its own (gzip 1, br 1);
-   "lvl10": a profile asking for level 10 of both codings (valid for br, beyond gzip's scale: gzip falls back to its default) *)
-Settings == {"default", "min100", "filterplain", "min100u", "fast", "lvl10"}
+   "lvl10": a profile asking for level 10 of both codings (valid for br, beyond gzip's scale: gzip falls back to its default);
+   "cfgjson" / "cfgdefault": the first and the second server of one configuration applied the way a configuration file
+   is (server.Reset): the first sets the filter `json|png`, the second sets nothing (so: the defaults) *)
+Settings == {"default", "min100", "filterplain", "min100u", "fast", "lvl10", "cfgjson", "cfgdefault"}
 Paths == {"first", "hit", "restore", "pass", "post"}
 
 AccBr(a) == a \in {"br", "gzip, deflate, br"}
@@ -33,7 +35,8 @@ AccGz(a) == a \in {"gzip", "gzip, deflate, br", "gzip, deflate"}
 
 TypeMatches(c) ==
   IF c.setting = "filterplain" THEN c.ctype = "text/plain; charset=utf-8"    \* filter `plain`
-  ELSE c.ctype = "text/plain; charset=utf-8"                                   \* default filter matches text, not image/png
+  ELSE IF c.setting = "cfgjson" THEN c.ctype \in {"application/json", "image/png"}   \* filter `json|png`
+  ELSE c.ctype \in {"text/plain; charset=utf-8", "application/json"}            \* default filter: text, json, ... not image/png
 
 RawAbove(c) == c.size \in {"above", "large"}
 
@@ -76,26 +79,36 @@ ExpectedLabel(c) ==
     [] c.path = "first" -> "fetching"
     [] OTHER -> IF c.cacheable THEN "hit" ELSE "hitForPass"
 
-AllCases ==
-  (* members: the number of gzip members the upstream's body consists of (RFC 1952 2.2: a gzip file is a series of members) *)
-  {[upenc |-> u, accept |-> a, size |-> s, ratio |-> r, ctype |-> t, setting |-> g, cacheable |-> k, path |-> p, status |-> st,
-    members |-> m] :
-     u \in UpEncs, a \in Accepts, s \in Sizes, r \in Ratios, t \in CTypes, g \in Settings, k \in BOOLEAN, p \in Paths,
-     st \in {200, 404}, m \in {1, 2}}
+(* the cells: (upstream encoding, client Accept-Encoding, cacheable/path) x a "shape" (size, ratio, type, setting, status,
+   gzip members).  members: the number of gzip members the upstream's body consists of (RFC 1952 2.2: a gzip file is a
+   series of members).  The shapes are built class by class so that no irrelevant combination is ever enumerated. *)
+Shape(s, r, t, g, st, m) == [size |-> s, ratio |-> r, ctype |-> t, setting |-> g, status |-> st, members |-> m]
+PlainPng == {"text/plain; charset=utf-8", "image/png"}
+RatiosOf(s) == IF s \in {"zero", "tiny"} THEN {"normal"} ELSE {"normal", "incompressible", "high"}
+Shapes ==
+       {Shape(s, r, t, g, 200, 1) : s \in Sizes, r \in Ratios \ {"extreme"}, t \in PlainPng,
+                                    g \in {"default", "min100", "filterplain", "min100u", "fast", "lvl10"}}
+  \cup {Shape(s, "normal", t, "default", 404, 1) : s \in Sizes, t \in PlainPng}
+  \cup {Shape(s, "normal", "application/json", g, 200, 1) : s \in {"below", "above", "large"},
+                                                            g \in {"default", "filterplain", "cfgjson", "cfgdefault"}}
+  \cup {Shape(s, "normal", t, g, 200, 1) : s \in {"below", "above", "large"}, t \in PlainPng, g \in {"cfgjson", "cfgdefault"}}
+  \cup {Shape("large", "extreme", t, "default", 200, 1) : t \in PlainPng}
+  \cup {Shape(s, "normal", t, "default", 200, 2) : s \in {"above", "large"}, t \in PlainPng}
+GoodShapes == {x \in Shapes : x.ratio \in RatiosOf(x.size) \cup {"extreme"}}
+KP == {<<TRUE, "first">>, <<FALSE, "first">>, <<TRUE, "hit">>, <<TRUE, "restore">>, <<FALSE, "pass">>, <<FALSE, "post">>}
 
-Relevant(c) ==
-  /\ (c.path \in {"pass", "post"} => ~c.cacheable)
-  /\ (c.path \in {"hit", "restore"} => c.cacheable)
-  /\ (c.status = 404 => c.setting = "default" /\ c.ratio = "normal")
-  /\ (c.size \in {"zero", "tiny"} => c.ratio = "normal")
-  /\ (c.ratio = "extreme" => c.size = "large" /\ c.setting = "default" /\ c.status = 200)
-  /\ (c.members = 2 => c.upenc = "gzip" /\ c.setting = "default" /\ c.status = 200 /\ c.size \in {"above", "large"} /\ c.ratio = "normal")
+Cells ==
+  {[upenc |-> u, accept |-> a, size |-> x.size, ratio |-> x.ratio, ctype |-> x.ctype, setting |-> x.setting,
+    cacheable |-> kp[1], path |-> kp[2], status |-> x.status, members |-> x.members] :
+     u \in UpEncs, a \in Accepts, kp \in KP, x \in GoodShapes}
+
+Relevant(c) == c.members = 2 => c.upenc = "gzip"
 
 VARIABLE l
 
 EmitInit ==
   /\ l = 0
-  /\ LET Q == SetToSeq({c \in AllCases : Relevant(c)})
+  /\ LET Q == SetToSeq({c \in Cells : Relevant(c)})
      IN ndJsonSerialize(IOEnv.OUT, [i \in 1..Len(Q) |-> Q[i] @@ [expected |-> SetToSeq(Expected(Q[i]))]])
 EmitNext == FALSE /\ l' = l
 
@@ -122,9 +135,12 @@ OkC13(o) ==
       comp == Compressible(c) IN
   /\ o.ce \in Expected(c)
   /\ o.label = ExpectedLabel(c)
-  /\ (Cacheable(c) /\ c.path \in {"hit", "restore"}) =>
-        \/ o.serveOps = <<>>
-        \/ (FALSE \in comp /\ Len(o.serveOps) <= 1)   \* a stored single variant the client does not accept
+  (* a hit is never compressed per request: a compressible response got its variants when it was stored, any other is
+     not compressed at all *)
+  /\ (Cacheable(c) /\ c.path \in {"hit", "restore"}) => o.serveOps = <<>>
+  (* the decision depends on nothing else: the same client asking again after a client without Accept-Encoding was
+     served from the same entry gets the same encoding *)
+  /\ (c.path \in {"hit", "restore"}) => o.ceAgain = o.ce
   /\ (Cacheable(c) /\ comp = {TRUE} /\ c.size # "zero") =>
         /\ \A i \in DOMAIN o.storeOps : Best(o.storeOps[i])
         /\ Len(o.storeOps) = (IF EffUp(c) \in {"gzip", "br"} THEN 1 ELSE 2)
